@@ -31,6 +31,7 @@ var checks = map[string]entry{
 	"C11": {"fault_enumeration", mon.CheckC11},
 	"C12": {"fault_enumeration", mon.CheckC12},
 	"C13": {"exploration", mon.CheckC13},
+	"C14": {"exploration", mon.CheckC14},
 	"C15": {"exploration", mon.CheckC15},
 	"C16": {"exploration", mon.CheckC16},
 	"C17": {"fault_enumeration", mon.CheckC17},
